@@ -432,10 +432,6 @@ pub fn parse_check<T: StrApi>(run: &mut Run) {
         let cap = capacity(ti, r);
         let mut strings: Vec<Vec<u8>> = Vec::new();
         let mut vs = vals.clone();
-        // numerals with structure in this radix (powers, interior zero runs, power-valued top digit)
-        let directed = radix_directed(bits, T::DIGIT_BITS, r);
-        let stride = (directed.len() / 400).max(1);
-        vs.extend(directed.into_iter().step_by(stride));
         vs.push(max.add(&big(1)).mul(&big(r as i128)));
         vs.push(BigRef::pow2(bits as u64).mul(&big(r as i128)).mul(&big(r as i128)));
         for v in &vs {
@@ -470,6 +466,18 @@ pub fn parse_check<T: StrApi>(run: &mut Run) {
                 let mut s = String::from("-");
                 s.push_str(&body);
                 strings.push(s.into_bytes());
+            }
+        }
+        // numerals with structure in this radix (powers, interior zero runs, power-valued top digit):
+        // canonical form, and upper case with '+' and one leading zero
+        let directed = radix_directed(bits, T::DIGIT_BITS, r);
+        let stride = (directed.len() / 300).max(1);
+        for v in directed.into_iter().step_by(stride) {
+            let body = v.to_str_radix(r);
+            strings.push(body.clone().into_bytes());
+            strings.push(format!("+0{}", body.to_uppercase()).into_bytes());
+            if ti.signed {
+                strings.push(format!("-{}", body).into_bytes());
             }
         }
         let strings = sets::dedup(strings);
